@@ -421,6 +421,8 @@ enum Fault {
     BiasAfterSetup(f64, f64),
     /// setup(P1), solve, then setup with an EMPTY start list on the same object, then the solves
     EmptyStartsAfterLife,
+    /// a first start state the checker accepts but the space bounds reject (every call still comes back)
+    StartOutsideBounds,
     /// a degenerate value of one of the planner's public numeric parameters: 0 = extension step
     /// (connection radius for PRM), 1 = RRT* rewiring radius, 2 = PRM build time
     Param(u8, f64),
@@ -436,6 +438,13 @@ fn run_fault<K: Kit>(sc0: &Scenario, f: &Fault, rep: &mut Report) {
         Fault::BiasAfterSetup(b, _) => sc.params.bias = *b,
         Fault::Param(0, v) => sc.params.step = *v,
         Fault::Param(1, v) => sc.params.radius = *v,
+        Fault::StartOutsideBounds => match crate::props_paths::out_of_bounds_start(&base_of(sc.kit)) {
+            Some((spec, start)) => {
+                sc.spec = spec;
+                sc.start = start;
+            }
+            None => return, // (this kind of space has no bounds to leave)
+        },
         _ => {}
     }
     let ak = api_kit(sc.kit);
@@ -451,6 +460,7 @@ fn run_fault<K: Kit>(sc0: &Scenario, f: &Fault, rep: &mut Report) {
         Fault::Param(w, v) => format!("{}={v}", ["step", "search-radius", "build-time"][*w as usize]),
         Fault::BiasAfterSetup(a, b) => format!("goal-bias={a}-then-{b}-after-setup"),
         Fault::EmptyStartsAfterLife => "empty-start-list-after-a-life".to_string(),
+        Fault::StartOutsideBounds => "start-outside-bounds".to_string(),
     };
     let r = guarded(|| {
         let mut rig = Rig::<K>::new(&sc, false);
@@ -709,6 +719,7 @@ pub fn explore(prop: &'static str, tier: &'static str) -> Report {
         }
         faults.push(Fault::EmptyStarts);
         faults.push(Fault::EmptyStartsAfterLife);
+        faults.push(Fault::StartOutsideBounds);
         for (a, b) in [(0.05, 1.5), (0.0, -0.1), (0.05, f64::NAN), (1.5, 0.05), (-0.1, 0.0), (f64::NAN, 0.5)] {
             faults.push(Fault::BiasAfterSetup(a, b));
         }
